@@ -1,8 +1,12 @@
 import Ark.Model.DrvC15
-/-  arkdrv: one op per line on stdin: `<prop> <op> args…` → one line `model|spec` -/
+import Ark.Model.DrvC01
+/-  arkdrv: one op per line on stdin: `<prop> <op> args… => <impl output>` → one line `model|verdict` -/
 open Ark
 
-def dispatch (line : String) : String :=
+structure DrvState where
+  c01 : DrvC01.Cache := {}
+
+def dispatch (st : DrvState) (line : String) : DrvState × String :=
   let (inp, impl) := match line.trimAscii.toString.splitOn " => " with
     | [a, b] => (a, b)
     | [a] => (a, "")
@@ -10,15 +14,20 @@ def dispatch (line : String) : String :=
   match inp.splitOn " " with
   | "C15" :: op :: args =>
     match DrvC15.run op args impl with
-    | some (m, s) => m ++ "|" ++ s
-    | none => "bad-op"
-  | _ => "bad-op"
+    | some (m, s) => (st, m ++ "|" ++ s)
+    | none => (st, "bad-op")
+  | "C01" :: op :: args =>
+    match DrvC01.run st.c01 op args impl with
+    | some (c, m, s) => ({ st with c01 := c }, m ++ "|" ++ s)
+    | none => (st, "bad-op")
+  | _ => (st, "bad-op")
 
-partial def loop (h : IO.FS.Stream) (out : IO.FS.Stream) : IO Unit := do
+partial def loop (h : IO.FS.Stream) (out : IO.FS.Stream) (st : DrvState) : IO Unit := do
   let line ← h.getLine
   if line.isEmpty then return ()
-  out.putStrLn (dispatch line)
-  loop h out
+  let (st', o) := dispatch st line
+  out.putStrLn o
+  loop h out st'
 
 def main : IO Unit := do
-  loop (← IO.getStdin) (← IO.getStdout)
+  loop (← IO.getStdin) (← IO.getStdout) {}
